@@ -24,6 +24,32 @@ type c05Case struct {
 	Inst      cmdspec.Inst `json:"inst"`
 	Args      []resp.Bin   `json:"args"`
 	PreSelect *int         `json:"pre_select,omitempty"`
+	// IntAsInteger: required integer arguments are sent as RESP integers (":n") instead of bulk strings. NOT generated:
+	// the unchanged tree itself accepts that encoding for some commands and refuses it for others (ZRANGE), so it is
+	// not part of "well-formed argument list"; kept for experiments through replay files.
+	IntAsInteger bool `json:"int_as_integer,omitempty"`
+	// Ret: what the handler returns for this request - "" (a message) | error | both (a message AND an error)
+	Ret string `json:"ret,omitempty"`
+}
+
+// intPositions: argument indexes of the request that the positional schema types as integers.
+func intPositions(args []resp.Bin) []int {
+	if len(args) == 0 {
+		return nil
+	}
+	name := strings.ToUpper(string(args[0]))
+	var out []int
+	for _, sc := range cmdspec.Schemas {
+		if sc.Name != name || len(sc.Pre) > 0 {
+			continue
+		}
+		for i, k := range sc.Pos {
+			if (k == cmdspec.PI || k == cmdspec.PPI || k == cmdspec.PIdx) && 1+i < len(args) {
+				out = append(out, 1+i)
+			}
+		}
+	}
+	return out
 }
 
 var scanSampleKeys = []string{"", "a", "b", "k", "ab", "ba", "abc", "a.c", "a+b", "k1", "k:1", "(", "a|b", "$", "^a", "{", "aXb", "kk", "1", "a\nb", "::", "a(b"}
@@ -87,6 +113,42 @@ func evalC05(c c05Case) (fl *Failure) {
 	}
 	reqs = append(reqs, c.Args)
 	data, _ := encodeReqs(reqs)
+	if c.IntAsInteger {
+		var vals []resp.Value
+		for ri, r := range reqs {
+			v := resp.Value{Kind: resp.Array}
+			isInt := map[int]bool{}
+			if ri == len(reqs)-1 {
+				for _, i := range intPositions(r) {
+					if n, err := strconv.ParseInt(string(r[i]), 10, 64); err == nil && strconv.FormatInt(n, 10) == string(r[i]) {
+						isInt[i] = true
+					}
+				}
+			}
+			for i, a := range r {
+				if isInt[i] {
+					v.Elems = append(v.Elems, resp.Value{Kind: resp.Integer, Data: a})
+				} else {
+					v.Elems = append(v.Elems, resp.BB(a))
+				}
+			}
+			vals = append(vals, v)
+		}
+		data, _ = resp.EncodeAll(vals)
+	}
+	if c.Ret != "" {
+		base := rec.ResultFn
+		rec.ResultFn = func(cl *doubles.Call) doubles.Result {
+			r := base(cl)
+			if cl.Frames == len(reqs)-1 {
+				r.Err = "ERR scripted handler error"
+				if c.Ret == "error" {
+					r.Val = nil
+				}
+			}
+			return r
+		}
+	}
 	conn := connsim.NewPreloaded(1, [][]byte{data})
 	t0 := time.Now()
 	o := connsim.Serve(srv, conn, serveTimeout())
@@ -196,6 +258,13 @@ func evalC05(c c05Case) (fl *Failure) {
 		}
 	}
 	// the reply
+	if c.Ret != "" {
+		// an error returned by the handler (with or without a message) reaches the client as an error reply
+		if in.Reply == cmdspec.ReplyPassThrough && len(calls) == 1 && !reply.IsError() {
+			return failf("c05|reply-error|"+in.Name, "%s: the handler returned an error (%s), the client received %s", what, c.Ret, reply)
+		}
+		return nil
+	}
 	switch in.Reply {
 	case cmdspec.ReplyPassThrough:
 		if len(calls) != 1 || calls[0].Ret == nil {
@@ -395,11 +464,20 @@ func TestC05(t *testing.T) {
 				n := rapid.IntRange(0, 15).Draw(rt, "seldb")
 				c.PreSelect = &n
 			}
+			if in.Reply == cmdspec.ReplyPassThrough {
+				c.Ret = rapid.SampledFrom([]string{"", "", "", "", "", "error", "both"}).Draw(rt, "ret")
+			}
 			canon, _ := encodeReqs([][]resp.Bin{c.Args})
-			canon = append(canon, []byte(in.GetMode+in.GetValue)...)
+			canon = append(canon, []byte(fmt.Sprint(in.GetMode, in.GetValue, c.IntAsInteger, c.Ret))...)
 			classes := []string{"cmd:" + name}
 			for _, f := range in.Features {
 				classes = append(classes, "feature:"+f)
+			}
+			if c.IntAsInteger {
+				classes = append(classes, "integer-typed-arguments")
+			}
+			if c.Ret != "" {
+				classes = append(classes, "handler-returns-"+c.Ret)
 			}
 			h.Col.Case(len(in.Features) > 0, canon, classes...)
 			if h.Col.WantSample() {
